@@ -19,9 +19,10 @@ for d in sorted(glob.glob(os.path.join(V, "seeded", "C*-m*"))):
     if len(det.get("signatures", [])) > 3:
         sigs += ", ..."
     seeds = ",".join(str(r["seed"]) for r in runs)
-    rows.append("| %s | %s: %s | %s | %s | %s (quick, seeds %s) |" % (sid, where, what, needs, "yes" if ok else "**no**", sigs, seeds))
+    verdict = "yes" if ok else ("**no** (%s)" % m["assessment"].split(":")[0] if m.get("assessment") else "**no**")
+    rows.append("| %s | %s: %s | %s | %s | %s (quick, seeds %s) |" % (sid, where, what, needs, verdict, sigs, seeds))
 table = "| id | change | needs to manifest | caught by `./check %s` | signatures |\n|---|---|---|---|---|\n" % "<prop>"
-table += "\n".join(re.sub(r" \| (yes|\*\*no\*\*) \| ", r" | \1 | ", r) for r in rows)
+table += "\n".join(rows)
 p = os.path.join(V, "DESIGN.md")
 s = open(p).read()
 a, b = "<!-- CALIB-TABLE-BEGIN -->", "<!-- CALIB-TABLE-END -->"
